@@ -284,6 +284,7 @@ theorem stepThr_none_pc {life : Nat} {g : G} {t : Tid}
     simp only [stepThr, hpc] at hnone
     first
       | (simp at hnone; done)
+      | (split at hnone <;> simp at hnone; done)
       | (obtain ⟨k, hk'⟩ := hkey (by simp [hpc]) (by simp [hpc]) (by simp [hpc])
          simp only [hk'] at hnone
          first
